@@ -139,10 +139,11 @@ def run(ctx: Ctx) -> int:
     rows: list[dict] = []
 
     def add(tg: blobfuzz.Target, data: bytes, what: str, stage: str = "", cls: str = "", predicted: str = "", meter: bool = True) -> None:
-        out, exc, kdf, steps = tg.unprotect(data, kdf_budget=300, step_budget=(400 * len(data) + 20000) if meter else None, use_async=(len(rows) % 11 == 0))
+        out, exc, kdf, steps = tg.unprotect(data, kdf_budget=300, step_budget=(400 * len(data) + 20000) if meter else None, use_async=(len(rows) % 11 == 0),
+                                            measure_mem=bool(stage))
         res = "return" if out in ("plain_ok", "plain_different") else out
         rows.append({"id": len(rows), "what": what, "stage": stage, "cls": cls, "predicted": predicted if predicted in ("ValueError", "NotImplementedError", "NotEnougData", "InvalidTag", "InvalidUnwrap") else "",
-                     "len": len(data), "out": res, "exc": exc, "excBase": exc.split("<")[0], "kdf": kdf, "steps": steps, "mode": tg.mode, "layout": tg.layout,
+                     "len": len(data), "out": res, "exc": exc, "excBase": exc.split("<")[0], "kdf": kdf, "steps": steps, "memk": tg.last_peak // 1024, "mode": tg.mode, "layout": tg.layout,
                      "hex": data[:600].hex() if res in ("error", "kdf_budget", "step_budget") and not blobfuzz_is_deliberate(exc) else ""})
 
     targets = [blobfuzz.Target(rng, ["SHA256", "SHA512", "SHA1", "SHA384"][(ctx.seed + i) % 4], m, lay, rng.randbytes(20))
@@ -189,7 +190,7 @@ def run(ctx: Ctx) -> int:
         add(tg, b"\x30\x84" + n.to_bytes(4, "big") + rng.randbytes(n), f"large {n}")
         add(tg, tg.blob + rng.randbytes(n), f"valid+trailing {n}")
     ctx.count(len(rows))
-    slim = [{k: r_[k] for k in ("id", "predicted", "len", "out", "exc", "excBase", "kdf", "steps")} for r_ in rows]
+    slim = [{k: r_[k] for k in ("id", "predicted", "len", "out", "exc", "excBase", "kdf", "steps", "memk")} for r_ in rows]
     bad, stats = validate(ctx, "TraceParse", "TraceParse.cfg", slim, chunk=8000, what="parse")
     ctx.note_drift("deliberate_type_other_than_predicted", sum(s.get("drift", 0) for s in stats))
     ctx.note_drift("kdf_calls_above_68_within_budget", sum(s.get("kdfDrift", 0) for s in stats))
@@ -221,10 +222,10 @@ def blobfuzz_is_deliberate(exc: str) -> bool:
 def selftest(ctx: Ctx) -> int:
     from ..tracecheck import selftest_expect_reject
 
-    base = {"predicted": "", "len": 100, "out": "error", "exc": "ValueError", "excBase": "ValueError", "kdf": 3, "steps": 500}
+    base = {"predicted": "", "len": 100, "out": "error", "exc": "ValueError", "excBase": "ValueError", "kdf": 3, "steps": 500, "memk": 10}
     good = [dict(base, id=0), dict(base, id=1, exc="ValueError<UnicodeDecodeError>"), dict(base, id=2, out="needs_network", exc="")]
     bad = [dict(base, id=3, exc="IndexError", excBase="IndexError"), dict(base, id=4, out="kdf_budget", exc="BudgetExceeded", excBase="BudgetExceeded"),
-           dict(base, id=5, steps=10**7), dict(base, id=6, exc="OverflowError", excBase="OverflowError")]
+           dict(base, id=5, steps=10**7), dict(base, id=6, exc="OverflowError", excBase="OverflowError"), dict(base, id=7, memk=4 * 1024 * 1024)]
     selftest_expect_reject(ctx, "TraceParse", "TraceParse.cfg", good, bad, "c05")
     print("selftest C05 ok")
     return 0
